@@ -54,11 +54,14 @@ def gen(c):
             case["surfaces"].append(dict(name="tail", symmetry=s["symmetry"], mesh=dict(M.random_spec(rng, half=spec["half"], nx=2, ny=3), offset=[6.0, 0.0, 0.6]), with_viscous=True,
                                          twist_cp=[0.5]))
         for k in range(2):
-            p = {"alpha": float(np.round(rng.uniform(0, 8), 2)), "Mach_number": float(np.round(rng.uniform(0.5, 0.9), 3)), "v": float(rng.uniform(100, 250)),
+            # first above, then below the wave-drag onset on the same problem
+            p = {"alpha": float(np.round(rng.uniform(1, 8), 2)), "Mach_number": float(np.round(rng.uniform(0.86, 0.93), 3)) if k == 0 else float(np.round(rng.uniform(0.45, 0.6), 3)), "v": float(rng.uniform(100, 250)),
                  "rho": float(rng.uniform(0.3, 1.0)), "wing.twist_cp": [float(x) for x in np.round(rng.uniform(-3, 3, 2), 2)], "wing.chord_cp": [float(x) for x in np.round(rng.uniform(0.8, 1.2, 2), 3)],
                  "wing.sweep": float(np.round(rng.uniform(0, 25), 2)), "wing.t_over_c_cp": [float(x) for x in np.round(rng.uniform(0.08, 0.14, 2), 3)]}
             if mode == "ground":
                 p["height_agl"] = float(np.round(rng.uniform(6, 30), 2))
+            if not s["symmetry"]:
+                p["beta"] = float(np.round(rng.uniform(-9, 9), 2))
             pts.append(p)
         of = ["aero.CL", "aero.CD", "aero.CM", "aero.wing_perf.CDv", "aero.wing_perf.CDw"]
         return "aero", case, pts, of
@@ -100,7 +103,8 @@ def gen(c):
     if rng.random() < 0.3:
         case["S_ref_total"] = 30.0
     for k in range(2):
-        p = {"alpha_0": float(np.round(rng.uniform(0, 6), 2)), "Mach_number_0": float(np.round(rng.uniform(0.55, 0.9), 3)), "v_0": float(rng.uniform(100, 170)),
+        p = {"alpha_0": float(np.round(rng.uniform(1, 6), 2)), "Mach_number_0": float(np.round(rng.uniform(0.84, 0.9), 3)) if k == 0 else float(np.round(rng.uniform(0.5, 0.62), 3)),
+             "v_0": float(rng.uniform(100, 170)),
              "wing.twist_cp": [float(x) for x in np.round(rng.uniform(-2, 2, 2), 2)], "wing.geometry.t_over_c_cp": [float(x) for x in np.round(rng.uniform(0.09, 0.14, 2), 3)],
              "load_factor_0": float(rng.choice([1.0, 2.5])), "W0": float(rng.uniform(500, 5e3)), "fuel_mass": float(rng.uniform(500, 3e3)),
              "rho_0": float(rng.uniform(0.3, 0.8)), "wing.sweep": float(np.round(rng.uniform(0, 20), 2)), "wing.taper": float(np.round(rng.uniform(0.6, 1.0), 3)),
@@ -110,6 +114,8 @@ def gen(c):
         p.update(tv())
         if npts == 2:
             p["alpha_1"] = float(np.round(rng.uniform(0, 6), 2))
+        if not s["symmetry"]:
+            p["beta"] = float(np.round(rng.uniform(-8, 8), 2))
         if npm:
             p["point_mass_locations"] = [[q[0] + float(rng.uniform(-0.2, 0.2)), q[1] * float(rng.uniform(0.8, 1.1)), q[2]] for q in extra["point_mass_locations"]]
             p["point_masses"] = [float(x) for x in 10 ** rng.uniform(1.5, 3, npm)]
